@@ -107,6 +107,8 @@ def audit(prop, extra_modules=()):
     ok, log = lake_build([f'OnlVerif.Props.{prop}'] + list(extra_modules) + ['driver'])
     res['build_ok'] = ok
     res['log'] = log[-6000:]
+    # the `error:` lines of the whole log (file:line of the first broken declaration; the tail alone may hold only goal dumps)
+    res['error_lines'] = [l for l in log.splitlines() if l.startswith('error:')][:12]
     if not ok:
         return res
     res['forbidden'] = forbidden_hits()
@@ -196,7 +198,7 @@ def run_check(prop, tier, seed, replay=None):
         proof_problems.append(prep_err)
     if not au['build_ok']:
         proof_problems.append('lake build failed: ' + '\n'.join(
-            l for l in au['log'].splitlines() if 'error' in l.lower())[:1500])
+            au.get('error_lines') or [l for l in au['log'].splitlines() if 'error' in l.lower()])[:1500])
     else:
         bad = dict(au['bad_axioms'])
         discharged = sum(1 for t in au['theorems'] if t not in bad)
